@@ -165,6 +165,8 @@ pub struct ClientResult {
     pub finished: bool,
     /// callback invocations observed per (faultable, blocking) operation index
     pub cb_counts: BTreeMap<usize, i64>,
+    /// cross-shard mode: (query ordinal, sorted ok results, error count) of every drained query
+    pub dist_log: Vec<(usize, Vec<DistElt>, usize)>,
 }
 
 struct Client<'a> {
@@ -452,6 +454,14 @@ impl<'a> Client<'a> {
                 let _ = err.into_iter().take(*k).count();
             }
             Drain::Drop => drop(err),
+        }
+        if self.cfg.group_hook {
+            // cross-shard differential: results are recorded, not compared with the model
+            let mut g = got_ok.unwrap_or_default();
+            g.sort();
+            let n = self.res.dist_log.len();
+            self.res.dist_log.push((n, g, got_err.unwrap_or(0)));
+            return;
         }
         if (got_ok.is_some() || got_err.is_some()) && q.commands_sent {
             let iseq = q.issue_seq;
@@ -1026,6 +1036,7 @@ fn statuses(v: Vec<(u64, anyhow::Result<TrackStatus>)>) -> Ret {
 
 pub fn client_main(case: &StoreCase, prop: &str) -> ClientResult {
     let env = Env::new(case.cfg.cap, case.cfg.none_mod, case.cfg.post_mod);
+    env.group_hook.store(case.cfg.group_hook, SeqCst);
     let notif = Notif::default();
     let store: Store = TrackStore::new(
         SimMetric {
